@@ -598,6 +598,28 @@ func (e Ext) writeJSON(buf *bytes.Buffer) error {
 
 // Go materialises e as the Go value handed to the library.
 func (e Ext) Go() interface{} {
+	// Every []byte of one materialisation is a sub-slice of ONE shared buffer, laid out in
+	// order, each with the following values inside its spare capacity - the way a caller
+	// that slices fields out of a received message passes them. A library that writes
+	// beyond len() of an input slice (e.g. pads in place with append) corrupts the siblings.
+	total := e.bytesTotal()
+	arena := make([]byte, 0, total+64)
+	v := e.goArena(&arena)
+	return v
+}
+
+func (e Ext) bytesTotal() int {
+	n := 0
+	if e.K == "bytes" {
+		n += len(e.S) / 2
+	}
+	for _, c := range e.L {
+		n += c.bytesTotal()
+	}
+	return n
+}
+
+func (e Ext) goArena(arena *[]byte) interface{} {
 	bi := func() *big.Int {
 		i, ok := new(big.Int).SetString(e.S, 10)
 		if !ok {
@@ -615,13 +637,13 @@ func (e Ext) Go() interface{} {
 	case "list":
 		out := make([]interface{}, len(e.L))
 		for i, c := range e.L {
-			out[i] = c.Go()
+			out[i] = c.goArena(arena)
 		}
 		return out
 	case "obj":
 		out := make(map[string]interface{}, len(e.L))
 		for i, c := range e.L {
-			out[e.Keys[i]] = c.Go()
+			out[e.Keys[i]] = c.goArena(arena)
 		}
 		return out
 	case "bigint":
@@ -665,7 +687,9 @@ func (e Ext) Go() interface{} {
 		if err != nil {
 			panic("abigen: bad hex in Ext: " + e.S)
 		}
-		return b
+		off := len(*arena)
+		*arena = append(*arena, b...)
+		return (*arena)[off : off+len(b)] // capacity runs on into the values that follow
 	case "strs":
 		out := make([]string, len(e.L))
 		for i, c := range e.L {
@@ -675,7 +699,7 @@ func (e Ext) Go() interface{} {
 	case "bigints":
 		out := make([]*big.Int, len(e.L))
 		for i, c := range e.L {
-			out[i] = c.Go().(*big.Int)
+			out[i] = c.goArena(arena).(*big.Int)
 		}
 		return out
 	}
